@@ -16,12 +16,13 @@ def main():
         rc, out = sh("git -C /repo worktree add -q --detach %s HEAD" % VER)
         assert rc == 0, out
     for pid in sys.argv[1:]:
-        src = "/tmp/wt_%s/MUTATION" % pid
+        rnd = os.environ.get("ROUND", "1")
+        src = ("/tmp/wt_%s/MUTATION" if rnd == "1" else "/tmp/w2_%s/MUTATION") % pid
         if not os.path.isdir(src):
             print(pid, "no deliverables"); continue
         meta = json.load(open(os.path.join(src, "meta.json")))
         for ab in ("a", "b"):
-            d = os.path.join(ROOT, "%s-%s" % (pid, ab))
+            d = os.path.join(ROOT, "%s-%s" % (pid, ab if rnd == "1" else {"a": "c", "b": "d"}[ab]))
             if not os.path.exists(os.path.join(src, ab + ".diff")):
                 continue
             os.makedirs(d, exist_ok=True)
@@ -39,7 +40,7 @@ def main():
             rc_demo, out_demo = sh("cargo run --offline --quiet --example seed_demo", cwd=VER)
             sh("git checkout -q -- . && git clean -fdq -e target", cwd=VER)
             ok = rc_clean == 0 and rc_apply == 0 and passed >= 211 and not failed and rc_demo != 0
-            m = {"property": pid, "variant": ab, "summary": meta.get(ab, {}).get("summary"), "needs": meta.get(ab, {}).get("needs"),
+            m = {"property": pid, "variant": os.path.basename(d).split("-")[1], "round": int(rnd), "summary": meta.get(ab, {}).get("summary"), "needs": meta.get(ab, {}).get("needs"),
                  "files": meta.get(ab, {}).get("files"),
                  "verified": {"applies": rc_apply == 0, "tests_passed_with_change": passed, "tests_failed_with_change": bool(failed),
                               "demo_exit_without_change": rc_clean, "demo_exit_with_change": rc_demo,
